@@ -15,7 +15,7 @@ def cfg(writers, closers=None, qsize=2, until=True, serve="pre", reads=0, maxfau
         maxpolls=10, nsenders=None, fixclosed=None, fixdrain=None, pcancel=False):
     """writers: {"W1": [("W1","bg"), ...]}; closers: {"C1": "e1"}"""
     closers = closers or {}
-    nops = sum(len(v) for v in writers.values())
+    nops = sum(sum(int(o[2]) if len(o) > 2 else 1 for o in v) for v in writers.values())
     return {
         "writers": {w: [list(o) for o in ops] for w, ops in writers.items()},
         "closers": dict(closers), "qsize": qsize, "until": until, "serve": serve, "reads": reads,
@@ -37,8 +37,9 @@ def senders(c):
 def tla_consts(c, maxpolls=None):
     return {
         "Writers": set(c["writers"].keys()),
-        "Prog": {w: [o[0] if o[0] != "WW" else "W1" for o in ops] for w, ops in c["writers"].items()},
+        "Prog": {w: [{"WW": "W1", "MB": "M"}.get(o[0], o[0]) for o in ops] for w, ops in c["writers"].items()},
         "CtxOf": {w: [("bg" if o[1] == "far" else o[1]) for o in ops] for w, ops in c["writers"].items()},
+        "NChunks": {w: [int(o[2]) if len(o) > 2 else 1 for o in ops] for w, ops in c["writers"].items()},
         "Closers": set(c["closers"].keys()),
         "CloseArg": dict(c["closers"]),
         "SenderIds": senders(c),
@@ -49,23 +50,30 @@ def tla_consts(c, maxpolls=None):
     }
 
 
-def go_case(c, cid, rnd, schedule=None, rand=None, sizes=None, props=None, notrace=False, max_steps=600):
+def go_case(c, cid, rnd, schedule=None, rand=None, sizes=None, props=None, notrace=False, max_steps=600, codec=False):
     sizes = sizes or NZ_SIZES  # a zero-length payload leaves no trace on the transport: only in untraced cases
     if 0 in sizes:
         notrace = True
     ws = []
     for w in sorted(c["writers"]):
         ops = []
-        for kind, ctx in c["writers"][w]:
-            ops.append({"kind": kind, "ctx": ctx, "size": sizes[rnd.randrange(len(sizes))],
-                        "parts": rnd.randrange(1, 4)})
+        for o in c["writers"][w]:
+            kind, ctx = o[0], o[1]
+            nch = int(o[2]) if len(o) > 2 else 1
+            op = {"kind": kind, "ctx": ctx, "size": sizes[rnd.randrange(len(sizes))], "parts": rnd.randrange(1, 4)}
+            if kind in ("RF", "MR", "MT"):
+                # one low-level write per chunk; ReadFrom reads at most 1024 bytes at a time
+                cs = [x for x in sizes if 0 < x <= 1024] or [1, 7, 100]
+                op["chunks"] = [cs[rnd.randrange(len(cs))] for _ in range(nch)]
+                op["size"] = sum(op["chunks"])
+            ops.append(op)
         ws.append({"name": w, "ops": ops})
     case = {
         "id": cid, "qsize": c["qsize"], "until": c["until"], "writers": ws,
         "closers": [{"name": k, "arg": v} for k, v in sorted(c["closers"].items())],
         "serve": c["serve"], "reads": c["reads"], "max_faults": c["maxfaults"],
         "senders": senders(c), "seed": rnd.randrange(1, 1 << 30), "max_steps": max_steps,
-        "no_trace": notrace,
+        "no_trace": notrace, "codec": codec,
     }
     if schedule is not None:
         case["schedule"] = schedule
